@@ -354,3 +354,12 @@ def ax_reserved_cap(z, x):
         from .models import len_term
         old, n = x[1][1], x[1][2]
         return [("Le", n, x), ("Le", len_term(old), x),("Le", mk_binop("Add", len_term(old), n) if not is_const(len_term(old)) or not is_const(n) else const(len_term(old)[1] + n[1]), x)]
+
+
+@axiom
+def ax_pread(z, x):
+    """n = usize::try_from(pread(fd, buf, count, off)) (Ok payload): n <= count (POSIX: at most count bytes are read)"""
+    if x[0] == "payload" and x[2] == "Ok" and isinstance(x[1], tuple) and x[1][0] == "call" and "TryFrom<isize> for usize" in x[1][1]:
+        a = x[1][2][0]
+        if isinstance(a, tuple) and a[0] == "call" and a[1] in ("libc::pread", "libc::read") and len(a[2]) >= 3:
+            return [("Le", x, a[2][2])]
